@@ -106,7 +106,7 @@ func cmdCheck(args []string) int {
 	}
 	t0 := time.Now()
 	seed, _ := strconv.Atoi(os.Getenv("VERIF_SEED"))
-	tmo, mode := 10, "first"
+	tmo, mode := 20, "first"
 	if *tier == "thorough" {
 		tmo, mode = 60, "all"
 	}
